@@ -1,4 +1,5 @@
 import Clikit.Model.Progress
+import Clikit.Lemmas.ProgressFloat
 /-!
 # Lemmas about the progress-bar model (C16)
 -/
@@ -41,6 +42,17 @@ theorem overwrite_fields (c : Config) (s : State) (t : Nat) (msg : Str) :
   unfold overwrite
   cases hk : c.kind <;> simp [secClear_fields, secWrite_fields]
 
+
+theorem secClear_percent (c : Config) (s : State) (n : Nat) : (secClear c s n).1.percent = s.percent := by
+  unfold secClear; split <;> simp
+
+theorem secWrite_percent (c : Config) (s : State) (x : Str) : (secWrite c s x).1.percent = s.percent := by
+  unfold secWrite; split <;> simp
+
+theorem overwrite_percent (c : Config) (s : State) (t : Nat) (msg : Str) :
+    (overwrite c s t msg).1.percent = s.percent := by
+  unfold overwrite
+  cases hk : c.kind <;> simp [secClear_percent, secWrite_percent]
 
 /-! ## `display` by cases -/
 
@@ -315,15 +327,25 @@ theorem barCharOf_length (c : Config) (s : State) (h : SingleChars c) : (barChar
   | some b => exact h.2.2 b hb
   | none => dsimp only; split <;> simp [h.1]
 
-theorem barOffset_le (c : Config) (s : State) (off : Nat) (h : barOffset c s = .ok off) :
-    off ≤ c.barWidth := by
+/-- `self._percent` is a value in `[0, 1]` -/
+def PctInv (s : State) : Prop := s.percent.num ≤ s.percent.den ∧ 0 < s.percent.den
+
+theorem mulNat_floor_le (x : Dy) (w : Nat) (hx : x.num ≤ x.den) (hd : 0 < x.den) (hw : w < 2 ^ 52) :
+    (x.mulNat w).floor ≤ w := by
+  unfold Dy.mulNat Dy.floor
+  have h2 := roundQ_le (x.num * w) x.den w hd
+    (by rw [Nat.mul_comm]; exact Nat.mul_le_mul_left _ hx) hw
+  exact Nat.div_le_of_le_mul (Nat.le_trans h2 (Nat.le_of_eq (Nat.mul_comm _ _)))
+
+theorem barOffset_le (c : Config) (s : State) (off : Nat) (hp : PctInv s) (hw : c.barWidth < 2 ^ 52)
+    (h : barOffset c s = .ok off) : off ≤ c.barWidth := by
   unfold barOffset at h
   split at h
-  · cases h; exact Nat.min_le_left _ _
+  · cases h; exact mulNat_floor_le _ _ hp.1 hp.2 hw
   · split at h
     · cases h
-    · rename_i hw
-      split at h <;> cases h <;> exact Nat.le_of_lt (Nat.mod_lt _ (Nat.pos_of_ne_zero hw))
+    · rename_i hw0
+      split at h <;> cases h <;> exact Nat.le_of_lt (Nat.mod_lt _ (Nat.pos_of_ne_zero hw0))
 
 theorem barOf_length (c : Config) (s : State) (off : Nat) (h : SingleChars c) (hoff : off ≤ c.barWidth) :
     (barOf c s off).length = c.barWidth := by
@@ -342,6 +364,7 @@ theorem placeholder_bar (c : Config) (s : State) (t : Nat) :
   cases barOffset c s <;> rfl
 
 theorem frameOf_bar_length (c : Config) (s : State) (text : Str) (b : Str) (h : SingleChars c)
+    (hp : PctInv s) (hw : c.barWidth < 2 ^ 52)
     (hb : (frameOf c s text).bar = some b) : b.length = c.barWidth := by
   unfold frameOf at hb
   dsimp only at hb
@@ -350,22 +373,86 @@ theorem frameOf_bar_length (c : Config) (s : State) (text : Str) (b : Str) (h : 
   | ok off =>
     simp [ho] at hb
     subst hb
-    exact barOf_length c s off h (barOffset_le c s off ho)
+    exact barOf_length c s off h (barOffset_le c s off hp hw ho)
 
+
+theorem pct_zero (s : State) (h : s.percent = ⟨0, 1⟩) : PctInv s := by
+  unfold PctInv; rw [h]; exact ⟨Nat.zero_le _, Nat.one_pos⟩
+
+theorem ensureFormat_pct (c : Config) (s : State) (h : PctInv s) : PctInv (ensureFormat c s) := by
+  unfold PctInv; rw [(ensureFormat_fields c s).2.2.1]; exact h
+
+theorem display_pct (c : Config) (s : State) (t : Nat) (h : PctInv s) : PctInv (display c s t).st := by
+  cases hq : c.quiet
+  · cases hb : buildLine c (ensureFormat c s) t with
+    | error e => rw [display_error c s t hq e hb]; exact ensureFormat_pct c s h
+    | ok text =>
+      rw [display_ok c s t hq text hb]
+      unfold PctInv; dsimp only; rw [overwrite_percent]; exact ensureFormat_pct c s h
+  · rw [display_quiet c s t hq]; exact h
+
+theorem progressed_pct (s : State) (k : Int) : PctInv (progressed s k) := by
+  unfold PctInv progressed
+  dsimp only
+  split
+  · rename_i hm
+    have := roundQ_le k.toNat (newMax s k) 1 (Nat.pos_of_ne_zero hm)
+      (by have := newMax_bound s k hm; omega) (by decide)
+    exact ⟨by omega, roundQ_den_pos _ _⟩
+  · exact ⟨Nat.zero_le _, Nat.one_pos⟩
+
+theorem setProgress_pct (c : Config) (s : State) (t : Nat) (k : Int) : PctInv (setProgress c s t k).st := by
+  rw [setProgress_eq]
+  cases decide' c s t (newMax s k) k.toNat
+  · exact display_pct c _ t (progressed_pct s k)
+  · exact progressed_pct s k
+  · exact display_pct c _ t (progressed_pct s k)
+  · exact progressed_pct s k
+
+theorem step_pct (c : Config) (s : State) (op : Op) (t : Nat) (h : PctInv s) : PctInv (step c s op t).st := by
+  cases op with
+  | start m =>
+    cases m with
+    | none => exact display_pct c _ t (pct_zero _ rfl)
+    | some m => exact display_pct c _ t (pct_zero _ rfl)
+  | advance k => exact setProgress_pct c s t _
+  | setProgress k => exact setProgress_pct c s t _
+  | display => exact display_pct c s t h
+  | clear =>
+    simp only [step, clear]
+    split
+    · exact h
+    · unfold PctInv; dsimp only; rw [overwrite_percent]; exact ensureFormat_pct c s h
+  | finish =>
+    simp only [step]
+    rw [finish_eq]
+    split
+    · unfold finished; split <;> exact h
+    · exact setProgress_pct c _ t _
+  | setMessage text => exact h
+
+theorem init_pct (m : Int) (t : Nat) : PctInv (init m t) := pct_zero _ rfl
+
+theorem display_frameOf (c : Config) (s : State) (t : Nat) (f : Frame) (hp : PctInv s)
+    (h : (display c s t).frame = some f) : ∃ s', PctInv s' ∧ f = frameOf c s' f.text :=
+  ⟨_, ensureFormat_pct c s hp, (display_frame c s t f h).2.2.2.2.2.2.2.2⟩
 
 theorem setProgress_frameOf (c : Config) (s : State) (t : Nat) (k : Int) (f : Frame)
-    (h : (setProgress c s t k).frame = some f) : ∃ s', f = frameOf c s' f.text := by
+    (h : (setProgress c s t k).frame = some f) : ∃ s', PctInv s' ∧ f = frameOf c s' f.text := by
   rw [(setProgress_frame c s t k f h).1] at h
-  exact ⟨_, (display_frame c _ t f h).2.2.2.2.2.2.2.2⟩
+  exact display_frameOf c _ t f (progressed_pct s k) h
 
-/-- every frame of the model is `frameOf` of some state -/
-theorem step_frameOf (c : Config) (s : State) (op : Op) (t : Nat) (f : Frame)
-    (h : (step c s op t).frame = some f) : ∃ s', f = frameOf c s' f.text := by
+/-- every frame of the model is `frameOf` of some state whose `_percent` is in `[0, 1]` -/
+theorem step_frameOf (c : Config) (s : State) (op : Op) (t : Nat) (f : Frame) (hp : PctInv s)
+    (h : (step c s op t).frame = some f) : ∃ s', PctInv s' ∧ f = frameOf c s' f.text := by
   cases op with
-  | start m => exact ⟨_, (display_frame c _ t f h).2.2.2.2.2.2.2.2⟩
+  | start m =>
+    cases m with
+    | none => exact display_frameOf c _ t f (pct_zero _ rfl) h
+    | some m => exact display_frameOf c _ t f (pct_zero _ rfl) h
   | advance k => exact setProgress_frameOf c s t _ f h
   | setProgress k => exact setProgress_frameOf c s t _ f h
-  | display => exact ⟨_, (display_frame c _ t f h).2.2.2.2.2.2.2.2⟩
+  | display => exact display_frameOf c s t f hp h
   | clear =>
     simp only [step, clear] at h
     split at h <;> simp at h
